@@ -161,6 +161,11 @@ def tagString := 9
 def tagNonSpecific := 10
 def tagOther := 13
 
+/-- `merge_scalar_is_null`: a scalar merge value (or merge-sequence element) is YAML null when it is
+tagged `!!null` or is plain null-like text, unless `!!str` / the non-specific tag `!` force a string -/
+def mergeScalarIsNull (v : List Char) (st : Style) (tag : Nat) : Bool :=
+  (tag == tagNull || scalarIsNullish v st) && tag != tagString && tag != tagNonSpecific
+
 def canParseIntoString (t : Nat) : Bool := Gen.tagCanParseIntoString.getD t false
 
 /-- `maybe_not_string` -/
@@ -597,8 +602,8 @@ def pendingFromEvents : Nat → List Ev → Loc → Loc → Except DErr (List Pe
     let c := Cur.replay events 0 (some ref)
     match events.head? with
     | none => .error ⟨"Eof", location, 0⟩
-    | some (.scalar v _ _ st _ l) =>
-      if scalarIsNullish v st then .ok [] else .error ⟨"MergeValueNotMapOrSeqOfMaps", l, 0⟩
+    | some (.scalar v tag _ st _ l) =>
+      if mergeScalarIsNull v st tag then .ok [] else .error ⟨"MergeValueNotMapOrSeqOfMaps", l, 0⟩
     | some (.mapStart ..) =>
       match collectEntriesFromMap fuel c ref with
       | .err e _ => .error e
@@ -639,8 +644,8 @@ def pendingFromLive : Nat → Cur → Loc → R (List PendingEntry)
     match c.peek with
     | .err e c => .err e c
     | .ok none c => .err (eofErr c) c
-    | .ok (some (.scalar v _ _ st _ l)) c =>
-      if scalarIsNullish v st then
+    | .ok (some (.scalar v tag _ st _ l)) c =>
+      if mergeScalarIsNull v st tag then
         match c.next with
         | .err e c => .err e c
         | .ok _ c => .ok [] c
